@@ -137,7 +137,7 @@ pub const OPS: &[&str] = &[
     "xml-number", "xml-attr-recordCount", "xml-attr-fileOffset", "xml-attr-length", "xml-type-swap", "xml-drop-attr", "xml-dup-line", "xml-del-line", "xml-swap-lines", "xml-min-gt-max", "xml-all-min-eq-max",
     "xml-proto-empty", "xml-proto-huge", "xml-entities", "xml-deep-nesting", "xml-bad-utf8", "xml-truncate", "xml-limits-hostile", "xml-invalid-state-range", "xml-precision",
     "hdr-field", "cv-header-field", "packet-header", "packet-stream-len", "blob-header", "payload-bits", "splice-sections", "packet-chain-ignored", "packet-big-1bit", "zero-width-all",
-    "unsealed-flip", "truncate", "extend", "tiny", "xml-length-huge", "xml-offset-into-crc", "packet-retype-short",
+    "unsealed-flip", "truncate", "extend", "tiny", "xml-length-huge", "xml-offset-into-crc", "packet-retype-short", "xml-drop-element",
 ];
 
 fn lines(xml: &str) -> Vec<&str> {
@@ -289,6 +289,33 @@ pub fn mutate(w: &Walk, seed_img: &[u8], opn: usize, r: &mut Rng, fc: &FastCrc) 
                 }
             }
             mk(v.concat(), note)
+        }
+        "xml-drop-element" => {
+            // a whole element with its content disappears (a pose without rotation, a cloud without
+            // prototype, a representation without its blob reference ...)
+            const NAMES: &[&str] = &[
+                "rotation", "translation", "pose", "prototype", "points", "cartesianBounds", "sphericalBounds", "indexBounds", "intensityLimits", "colorLimits", "acquisitionStart", "acquisitionEnd", "creationDateTime", "dateTimeValue",
+                "visualReferenceRepresentation", "pinholeRepresentation", "sphericalRepresentation", "cylindricalRepresentation", "jpegImage", "pngImage", "imageMask", "data3D", "images2D", "guid", "formatName", "versionMajor", "w", "x",
+                "associatedData3DGuid", "originalGuids", "sensorVendor", "temperature",
+            ];
+            let start = r.usize(NAMES.len());
+            let mut done = None;
+            for k in 0..NAMES.len() {
+                let name = NAMES[(start + k) % NAMES.len()];
+                let open = format!("<{}", name);
+                let close = format!("</{}>", name);
+                let occ: Vec<usize> = xml.match_indices(&open).map(|(i, _)| i).filter(|i| matches!(xml.as_bytes().get(i + open.len()), Some(b' ') | Some(b'>') | Some(b'/'))).collect();
+                if occ.is_empty() {
+                    continue;
+                }
+                let a = *r.pick(&occ);
+                if let Some(e) = xml[a..].find(&close) {
+                    done = Some((a, a + e + close.len(), name));
+                    break;
+                }
+            }
+            let (a, b, name) = done?;
+            mk(replace_range(xml, a, b, ""), format!("element {} removed", name))
         }
         "xml-min-gt-max" => {
             let occ = attr_like(xml, "minimum");
